@@ -180,9 +180,14 @@ def r3(F, R):
                 ok = wo is not None and (wo == r.get("world_opt_term") or (D.is_variant(wo, "std::option::Option", "Some") and wo[3][0] == have))
                 R.check(ok, f"step/outcome-keeps-world/{cond}", P, "the outcome carries the attempt's World",
                         f"an outcome ({r['outcome']}) of the step drops the attempt's World (hands on {D.fmt(P, wo)[:40] if wo else 'nothing'} although a World exists): the after hook and later events lose it")
-            else:
+            elif r["world_opt"] == "None":
                 ok = wo is not None and (wo == r.get("world_opt_term") or D.is_variant(wo, "std::option::Option", "None"))
                 R.check(ok, f"step/outcome-keeps-world/{cond}", P, "no World exists: None is handed on", f"an outcome ({r['outcome']}) hands on a World ({D.fmt(P, wo)[:40] if wo else '?'}) on a path where none exists")
+            else:
+                # the path never looked at the threaded World: it may exist, so it has to be handed on as it is
+                ok = wo is not None and wo == r.get("world_opt_term")
+                R.check(ok, f"step/outcome-keeps-world/{cond}", P, "the threaded World is handed on untouched",
+                        f"an outcome ({r['outcome']}) of the step drops the attempt's World (hands on {D.fmt(P, wo)[:40] if wo else 'nothing'} without having looked whether one exists): the after hook and later events lose it")
     R.check(kinds == {"created", "threaded"}, "step/world-is-threaded-or-created", P, "world = world_opt or the one just created", f"the World handed to the step comes from {sorted(kinds)}")
     R.check(n_out >= 5 and n_call >= 2, "step/outcomes-found", P, f"{n_out} failure / skip outcomes, {n_call} rows calling the step", f"only {n_out} outcomes / {n_call} step calls found in the step routine's table")
     # take_world: all arms take the stored world
